@@ -15,3 +15,4 @@ CONSTANTS
 INVARIANTS NoFault RunsExactlyOnce CallReturnsAfterFinish AsyncDeletedOnceAfterRun RecordCopiedBeforeReuse DestructorWaits EveryWorkerGetsOneMarker NoStuck RingBounded RunningCounts
 CONSTRAINT ReachRecord
 POSTCONDITION ReachPost
+SYMMETRY Sym
